@@ -158,6 +158,17 @@ func fromCl(msg string) bool {
 	return false
 }
 
+const sizeofRecursive = "stack-overflow@go/types.(*gcSizes).Sizeof"
+
+func usesSizeof(files map[string]string) bool {
+	for _, src := range files {
+		if strings.Contains(src, "Sizeof(") || strings.Contains(src, "Alignof(") || strings.Contains(src, "Offsetof(") {
+			return true
+		}
+	}
+	return false
+}
+
 var letters = regexp.MustCompile(`[A-Za-z]+`)
 
 func gist(msg string) string {
@@ -279,6 +290,12 @@ func TestCompile(t *testing.T) {
 			}
 		}
 		c := Case{Files: p.Files, Entry: entry}
+		if r.HasKnown(sizeofRecursive) && usesSizeof(p.Files) {
+			// listed finding: unsafe.Sizeof of an invalid recursive type overflows the stack inside
+			// go/types; a process that dies cannot go on, so such packages are left out (counted)
+			r.Excluded(sizeofRecursive)
+			return
+		}
 		var in info
 		v := r.Guard("compile", c, 30*time.Second, func() *vk.Verdict {
 			vv, i := compile(c)
